@@ -8,12 +8,13 @@ from vlib.device import SIGNER
 
 ID = "C04"
 LEVEL = "fault_enumeration"
-RULE = ("enumeration of cells (nominal request, exchange step, outcome) with outcome in all "
+RULE = ("(i) enumeration of cells (nominal request, exchange step, outcome) with outcome in all "
         "status words a transport can raise (65536 minus 0x9000 and 0x61xx) plus timeout, write "
         "error, read error and well-formed answers carrying an unexpected opcode; thorough = "
         "complete product, quick = every step x (named firmware status words, range edges, 256 "
         "seed-chosen others, all non-status outcomes); every cell with a non-nominal outcome is "
-        "non-trivial; distinct = distinct cells")
+        "non-trivial; distinct = distinct cells; (ii) the quick cell set again, each cell preceded by "
+        "one successful run of the same request on the same manager")
 ASSUMPTIONS = [
     "status-word cause table transcribed from firmware bc_err.h / auth.h / err.h and "
     "docs/protocol.md, not from the middleware's tables",
